@@ -38,6 +38,13 @@ def handle (toks : List String) : Option String := do
     let ref := customerOrderRef (← parseStr? hash) (← parseStr? sep) (orderId (← n.toNat?))
     some (showStr ref ++ " " ++ toString ref.length ++ " " ++ showBool (ref.all fun c => validChars.contains c) ++ " " ++
       showStr (refHash ref) ++ " " ++ showStr (refId ref))
+  | ["ref.bybet", rb, bet, known] =>
+    let r ← (if rb = "-" then some none else rb.toNat?.map some)
+    let ks ← (if known = "." then some [] else (known.splitOn ",").mapM String.toNat?)
+    some (match pickByBet r (← bet.toNat?) ks with
+      | none => "S"
+      | some none => "R"
+      | some (some b) => "B" ++ toString b)
   | ["ref.inst", ops] =>
     let os ← (ops.splitOn ";").mapM parseOp?
     some (showList showAnswer (run os))
